@@ -97,6 +97,25 @@ MUTANTS = [
     ("C19", "dendropy/datamodel/charmatrixmodel.py", "                if not is_add_new_sequences:\n                    continue", "                if is_add_new_sequences:\n                    continue",
      "extend_sequences: flag inverted"),
     ("C19", "dendropy/datamodel/charmatrixmodel.py", "            self.append(None)\n            to_add -= 1", "            self.append(None)", "set_at: loop counter not decremented"),
+    ("C12", "dendropy/datamodel/taxonmodel.py", "            for taxon in self._taxa:\n                memo[id(taxon)] = taxon\n        return memo",
+     "            for taxon in self._taxa[1:]:\n                memo[id(taxon)] = taxon\n        return memo", "populate_memo: the first taxon is not entered (it would be copied)"),
+    ("C12", "dendropy/datamodel/taxonmodel.py", "            memo[id(self)] = self\n            for taxon in self._taxa:\n                memo[id(taxon)] = taxon",
+     "            for taxon in self._taxa:\n                memo[id(taxon)] = taxon", "populate_memo: the namespace itself is not entered"),
+    ("C12", "dendropy/datamodel/basemodel.py", "            return self.taxon_namespace_scoped_copy(memo=None)", "            return copy.deepcopy(self)",
+     "clone(1) makes a deep copy"),
+    ("C12", TM + "_tree.py", "        self.taxon_namespace.populate_memo_for_taxon_namespace_scoped_copy(memo)\n        return self.__deepcopy__(memo=memo)",
+     "        self.taxon_namespace.populate_memo_for_taxon_namespace_scoped_copy(memo)\n        return self.__deepcopy__(memo={})", "Tree scoped copy: the filled memo is not the one used"),
+    ("C13", "dendropy/datamodel/basemodel.py", "        ssrc = StringIO(src, newline=None)\n        return cls._parse_and_create_from_stream(stream=ssrc,",
+     "        ssrc = StringIO(src)\n        return cls._parse_and_create_from_stream(stream=ssrc,", "get_from_string: the string is wrapped without universal newlines"),
+    ("C13", "dendropy/datamodel/basemodel.py", "        with open(src, *open_args) as fsrc:\n            return self._parse_and_add_from_stream(stream=fsrc, schema=schema, **kwargs)",
+     "        with open(src, *open_args) as fsrc:\n            return self._parse_and_add_from_stream(stream=fsrc, schema=schema)", "read_from_path: reader options dropped"),
+    ("C19", "dendropy/datamodel/charmatrixmodel.py", "            if taxon not in to_keep:\n                del self._taxon_sequence_map[taxon]",
+     "            if taxon in to_keep:\n                del self._taxon_sequence_map[taxon]", "keep_sequences: membership test inverted"),
+    ("C19", "dendropy/datamodel/charmatrixmodel.py", "        for taxon in taxa:\n            try:\n                del self._taxon_sequence_map[taxon]\n            except KeyError:\n                pass",
+     "        try:\n            for taxon in taxa:\n                del self._taxon_sequence_map[taxon]\n        except KeyError:\n            pass",
+     "discard_sequences: the first taxon without a row ends the loop"),
+    ("C19", "dendropy/datamodel/charmatrixmodel.py", "        for taxon in taxa:\n            del self._taxon_sequence_map[taxon]\n",
+     "        for taxon in taxa:\n            del self._taxon_sequence_map[taxon]\n            break\n", "remove_sequences: only the first taxon named is removed"),
     ("C20", "dendropy/dataio/nexusreader.py",
      "            else:\n                token = self._nexus_tokenizer.require_next_token_ucase()\n\n    def _parse_dimensions_statement",
      "            else:\n                token = self._nexus_tokenizer.next_token_ucase()\n\n    def _parse_dimensions_statement",
@@ -105,6 +124,27 @@ MUTANTS = [
      "            elif token == 'BEGIN':\n                raise self._nexus_error(\"'BEGIN' found without completion of previous block\",\n                        NexusReader.IncompleteBlockError)\n            token = self._nexus_tokenizer.require_next_token_ucase()\n\n    def _parse_matrix_statement",
      "            elif token == 'BEGIN':\n                raise self._nexus_error(\"'BEGIN' found without completion of previous block\",\n                        NexusReader.IncompleteBlockError)\n            token = self._nexus_tokenizer.next_token_ucase()\n\n    def _parse_matrix_statement",
      "_parse_dimensions_statement: loop step no longer requires a token"),
+    # --- the NEWICK recursive descent (contracts/C20newick.py)
+    ("C20", "dendropy/dataio/newickreader.py",
+     "                        ## node_created = True # do not flag node as created to allow for an extra node to be created in the event of (..,)\n                    nexus_tokenizer.require_next_token()\n",
+     "                        ## node_created = True # do not flag node as created to allow for an extra node to be created in the event of (..,)\n",
+     "node description: the `,` after a child is no longer stepped over (the for-count loop spins)"),
+    ("C20", "dendropy/dataio/newickreader.py",
+     "                    # end of child nodes\n                    self._parenthesis_nesting_level -= 1\n",
+     "                    # end of child nodes\n",
+     "node description: closing parenthesis not counted"),
+    ("C20", "dendropy/dataio/newickreader.py",
+     "                self._tree_statement_complete = True\n                nexus_tokenizer.next_token()\n                break",
+     "                self._tree_statement_complete = True\n                break",
+     "node description: the `;` that completes the statement is not consumed (tree_iter would return the same tree for ever)"),
+    ("C20", "dendropy/dataio/newickreader.py",
+     "        while (current_token == \";\" or current_token is None) and not nexus_tokenizer.is_eof():\n            # (an empty or exhausted source is not an error: no (more) trees)\n            current_token = nexus_tokenizer.next_token()",
+     "        while (current_token == \";\" or current_token is None) and not nexus_tokenizer.is_eof():\n            # (an empty or exhausted source is not an error: no (more) trees)\n            current_token = nexus_tokenizer.current_token",
+     "tree statement: the skip loop over `;` no longer advances"),
+    ("C20", "dendropy/dataio/newickreader.py",
+     "            # self._parenthesis_nesting_level += 1 # handled by calling code\n            nexus_tokenizer.require_next_token()\n",
+     "            # self._parenthesis_nesting_level += 1 # handled by calling code\n",
+     "node description: the opening parenthesis is not stepped over (the description recurses on the same token for ever)"),
 ]
 
 
